@@ -1117,6 +1117,10 @@ var stdReceiverMutatingExceptions = map[string]bool{
 	"(*regexp.Regexp).Longest": true,
 }
 
+// ExternalMutates lists the argument positions an unanalysed (standard-library) callee writes
+// through, according to the external model.
+func (a *Analysis) ExternalMutates(callee *ssa.Function) []int { return a.externalMutates(callee) }
+
 func (a *Analysis) externalMutates(callee *ssa.Function) []int {
 	name := callee.String()
 	if idx, ok := externalFuncMutators[name]; ok {
